@@ -780,7 +780,7 @@ func (m *Machine) mkError(msg string) Value {
 func (m *Machine) symString(name string, n int) Value {
 	c := m.ctx
 	b := m.newBlock(n, 1, "symbolic string "+name)
-	b.owner = "harness"
+	b.owner = m.owner
 	for i := 0; i < n; i++ {
 		if m.fixed != nil {
 			m.rawStore(b, i, c.Const(m.nextFixed(name, "u8"), 8), 1)
